@@ -196,6 +196,7 @@ func RunProperty(cfg Config, cases []Case) int {
 		inconclusive                         []string
 		concreteRuns, concreteFail           int
 		rawMismatch                          int
+		concreteSpot                         int
 		distinct                             = map[string]bool{}
 	)
 	exit := 0
@@ -243,9 +244,19 @@ func RunProperty(cfg Config, cases []Case) int {
 		}
 		if r.Concrete != nil {
 			concreteRuns++
-			for _, o := range r.Concrete.Obligations {
+			for oid, o := range r.Concrete.Obligations {
+				if strings.HasPrefix(oid, "concrete:") {
+					concreteSpot++
+				}
 				if o.Status == symalg.StViolated {
-					concreteFail++
+					if strings.HasPrefix(oid, "concrete:") {
+						// a clause that exists only in concrete mode failed natively: a real, replayable violation
+						rp := replayResult{Obligation: oid, Case: r.CaseID, Modulus: r.Modulus, Model: map[string]string{"__seed__": fmt.Sprint(cfg.Seed + 7)}, ModelRepro: true, RealRepro: "n/a", Reason: o.Reason}
+						rp.File = writeReplay(cfg, rp)
+						violations = append(violations, rp)
+					} else {
+						concreteFail++
+					}
 				}
 			}
 		}
@@ -359,6 +370,7 @@ func RunProperty(cfg Config, cases []Case) int {
 			"solver_time_s":                 queries["solver_s"],
 			"concrete_validation_runs":      concreteRuns,
 			"concrete_validation_failures":  concreteFail,
+			"concrete_only_spot_checks":     concreteSpot,
 			"functions_encoded":             cfg.Functions,
 			"bounds":                        cfg.Bounds,
 			"outside_claim":                 cfg.Outside,
